@@ -13,6 +13,16 @@ if wave == "c":
              "labelled blocks, while-let, index loops, a flag variable) with one arm subtly wrong; pass a value through a wrapper struct / Option / tuple and "
              "unpack a stale or wrong component; cache something in a local before a synchronisation point that used to be read after it; rename things along the way. "
              "The change as a whole must still break the property and satisfy (a)-(d); a reviewer skimming the diff should think 'just a refactor'.\n\n")
+if wave == "d":
+    WAVE2 = ("This is a FOURTH ROUND. Earlier rounds produced (1) single-statement slips at the main mechanism, (2) cooperating edits in helpers / sibling "
+             "implementations, (3) defects disguised inside refactorings of the mechanism. This time the change should look like a FEATURE, OPTIMISATION or HARDENING "
+             "commit that mostly ADDS code or changes declarations rather than editing the statements of the known mechanism: e.g. a new fast path / early-out / cache of a "
+             "value that used to be re-read, a new public or crate-private convenience method (clear / reset / peek / try_* / batch variant / len shortcut) that existing "
+             "code paths start using or that a user would reasonably call, a new or changed Drop / Clone / Default / Send / Sync impl or derive, a changed field type, "
+             "field order, generic const, const assertion, initial value in a constructor, type alias in the prelude, default trait method in types.rs, macro, "
+             "instrument flag, visibility, or a weakened / mismatched memory ordering used as the mechanism. The defect may sit in a place the property relies on "
+             "only indirectly (constructors, trait defaults, aliases, the glue between layers) rather than in the functions the anchors name. "
+             "The change as a whole must still break the property and satisfy (a)-(d); a reviewer should think 'reasonable small feature / perf tweak'.\n\n")
 print(f"""You are helping to test a verification tool by playing the adversary. You have your own scratch git worktree of a Rust library
 (zertyz/reactive-mutiny: async reactive event library with Uni/Multi channels over custom lock-free queues, pool allocators, OgreArc refcounting,
 an mmap log channel and stream executors) at {wt}. Work ONLY inside {wt} and {wt}-out. Never read or write /repo or /verif.
